@@ -14,5 +14,5 @@ Extraction "model.ml"
   max_retries
   okC10 okC11_enc okC11_conv rfc_layout okSend okRecv fnv_extend fnv_init parse_args parse_client_args okDupArgs
   listen_step lstate_init worker_ended stat kind_of create_file remove_file lookup_entry set_entry run_download run_upload nblocks_of
-  convert_file_path join validate_file_path parse_options default_wopts msg_invalid_request kernel_segs unhonourable pair_init pair_step
+  convert_file_path join validate_file_path parse_options default_wopts msg_invalid_request kernel_segs unhonourable pair_init pair_step pair_init_cap pair_step_cap
   download_request upload_request on_first_reply_download on_first_reply_upload download_target file_name.
